@@ -13,12 +13,16 @@ RULE = ("op sequences over a 29-op alphabet (add option / command option with al
         "query vector (command names WITH aliases, positions -2..6) of the builder and of builder.format are compared, the "
         "format finished BEFORE the op is queried again after it (a finished format stays what it was), plus "
         "ArgsFormat(elements, base) for add-only sequences; a family built through CommandConfig.add_option/add_argument/"
-        "build_args_format on the same bases; non-trivial = >= 1 rejection or >= 2 accepted elements; distinct by (bases, ops)")
-TRUSTED = ["that a finished format does not change when its builder moves on is checked on the implementation only (in the model a "
-           "format is a value)"]
+        "build_args_format on the same bases (11 configurations, 4 of them colliding within themselves, those on the empty base); "
+        "names that differ only in CASE ('f' / 'F', 'bar' / 'Bar'): 8 such elements exhaustive to length 3 on the empty base and on "
+        "a base holding 'F' and 'B', and in 30 % of the random sequences; every level of the base chain is asked its full query "
+        "vector again after the last op (a base does not change by what is built on top of it); non-trivial = >= 1 rejection or "
+        ">= 2 accepted elements; distinct by (bases, ops)")
+TRUSTED = ["that a finished format does not change when its builder moves on, and that a base format does not change by what is built "
+           "on top of it, are checked on the implementation only (in the model a format is a value)"]
 ASSUMPTIONS = ["elements are valid Option/CommandOption/Argument/CommandName objects (their construction is C07)"]
 
-POOL = ["foo", "f", "bar", "b", "cmd", "c", "arg1", "arg2", "multi", "yy", "z", "baz", "other", "arg3"]
+POOL = ["foo", "f", "bar", "b", "cmd", "c", "arg1", "arg2", "multi", "yy", "z", "baz", "other", "arg3", "F", "B", "Foo", "Bar"]
 REQ, OPT, MULTI = 1, 2, 4
 OPTS = [["foo", "f"], ["bar", "b"], ["foo", None], ["baz", "f"]]
 COPTS = [["foo", "f", [], []], ["cmd", "c", ["bar"], ["b"]], ["other", None, ["foo", "yy"], []], ["zz", "z", [], ["f"]],
@@ -61,11 +65,19 @@ BASES = [[],
          # shapes that otherwise only occur at the top level: an option without short name, a command option without short
          # name of its own but with a short alias, a required multi-valued argument, a command name with an alias
          [[e_opt(OPTS[2]), e_copt(COPTS[4]), e_arg(ARGS[4]), e_cname(CNAMES[0])]]]
+# names that differ from others only in CASE (short names 'f' / 'F', long names 'bar' / 'Bar'): distinct names, and 'F' is taken
+# once 'F' is there - audit mutant C06-6 exempted upper-case short names from the collision check and nothing was seen
+CASED = [e_opt(["qux", "F"]), e_opt(["Foo", "F"]), e_opt(["quux", "f"]), e_opt(["Bar", "B"]), e_copt(["up", "B", [], ["F"]]),
+         e_copt(["down", "b", ["Bar"], ["B"]]), e_opt(OPTS[0]), e_opt(OPTS[1])]
+CASED_BASE = [[e_opt(["low", "F"]), e_copt(["lowc", "b", [], ["B"]])]]
 # a command configuration: name (+ aliases, or anonymous), options and arguments free of collisions among themselves, stacked
 # on a base through CommandConfig.build_args_format
 CONFIGS = [[CNAMES[0], 0, [OPTS[0]], [ARGS[0]]], [CNAMES[0], 0, [OPTS[1], OPTS[2]], [ARGS[0], ARGS[1]]],
            [CNAMES[1], 0, [], [ARGS[1], ARGS[3]]], [CNAMES[1], 1, [OPTS[3]], [ARGS[4]]], [CNAMES[0], 1, [], []],
-           [CNAMES[0], 0, [OPTS[2], OPTS[1]], [ARGS[5], ARGS[1], ARGS[3]]], [CNAMES[1], 0, [OPTS[1]], [ARGS[2]]]]
+           [CNAMES[0], 0, [OPTS[2], OPTS[1]], [ARGS[5], ARGS[1], ARGS[3]]], [CNAMES[1], 0, [OPTS[1]], [ARGS[2]]],
+           # configurations that collide WITHIN themselves (Config.add_option / add_argument must refuse the second element)
+           [CNAMES[0], 0, [OPTS[0], OPTS[2]], [ARGS[0]]], [CNAMES[1], 0, [OPTS[0], OPTS[3]], []], [CNAMES[1], 0, [], [ARGS[1], ARGS[5]]],
+           [CNAMES[0], 1, [OPTS[1]], [ARGS[3], ARGS[1]]]]
 
 
 def gen(rng, tier, info):
@@ -82,14 +94,23 @@ def gen(rng, tier, info):
             for seq in itertools.product(ALPHA, repeat=k):
                 if b is BASES[4] or any(o in MORE for o in seq):
                     cases.append({"bases": b, "ops": list(seq), "every": 1})
+    for b in ([], CASED_BASE):
+        for k in (1, 2, 3):
+            for seq in itertools.product(CASED, repeat=k):
+                cases.append({"bases": b, "ops": list(seq), "every": 1})
     n_ex = len(cases)
     for _ in range(nrand):
         k = rng.randint(3, 7)
-        cases.append({"bases": rng.choice(BASES), "ops": [rng.choice(ALPHA) for _ in range(k)], "every": 1})
+        al = ALPHA + CASED[:6] if rng.random() < 0.3 else ALPHA
+        cases.append({"bases": rng.choice(BASES + [CASED_BASE]), "ops": [rng.choice(al) for _ in range(k)], "every": 1})
     # through CommandConfig: the same elements as an add-only sequence (name, options, arguments)
     n_cfg = 0
     for b in BASES:
-        for cn, anon, os_, as_ in CONFIGS:
+        for ci, (cn, anon, os_, as_) in enumerate(CONFIGS):
+            if ci >= 7 and b:
+                # a configuration that collides within itself is refused by its own builder, which knows no base: over a
+                # base that collides too the element constructor may name another rule first - on the empty base only
+                continue
             ops = ([] if anon else [e_cname(cn)]) + [e_opt(o) for o in os_] + [e_arg(a) for a in as_]
             cases.append({"bases": b, "ops": ops, "every": 1, "cfg": [cn, anon, os_, as_]})
             n_cfg += 1
@@ -183,14 +204,25 @@ def _via_config(c, base):
     return cfg.build_args_format(base)
 
 
+_BASE_BEFORE = {}
+
+
 def run_impl(c):
+    import json
     from clikit.api.args.format import ArgsFormat, ArgsFormatBuilder
     base = None
+    levels = []
     try:
         for lvl in c["bases"]:
             base = ArgsFormat([_mk(e) for e in lvl], base)
+            levels.append(base)
     except Exception as e:
         return [-3, exc_code(e)]
+    # what every level of the base chain answers before anything is built on top of it (a function of the description:
+    # computed once per description and worker); asked again after the last op
+    bkey = json.dumps(c["bases"])
+    if bkey not in _BASE_BEFORE:
+        _BASE_BEFORE[bkey] = [qvec(l) for l in levels]
     b = ArgsFormatBuilder(base)
     steps = []
     add_only = True
@@ -225,10 +257,12 @@ def run_impl(c):
     tail = []
     if add_only:
         tail = [_res(lambda: ArgsFormat([_mk(o) for o in c["ops"]], base), qvec)]
+    via = [_res(lambda: _via_config(c, base), qvec)] if c.get("cfg") else None
+    bases_same = 1 if [qvec(l) for l in levels] == _BASE_BEFORE[bkey] else 0
     if c.get("cfg"):
         # what the model's ArgsFormat(elements, base) is compared with is the format built through the configuration
-        return [0, steps, [_res(lambda: _via_config(c, base), qvec)], tail]
-    return [0, steps, tail]
+        return [0, steps, via, tail, bases_same]
+    return [0, steps, tail, bases_same]
 
 
 def canon_impl(c, o):
@@ -288,6 +322,8 @@ def _wf(v):
 def oracle(c, o):
     if o[0] != 0:
         return "base-construction-failed:%d" % o[1]
+    if o[-1] == 0:
+        return "base-format-changed-by-what-was-built-on-top-of-it"
     prev = None
     any_err = False
     # every name the base levels and the accepted additions so far use for an option or a command option (tracked while
